@@ -195,6 +195,8 @@ pub const VARIANTS: &[&str] = &[
     "layout-trap",
     "reserved-texture",
     "reserved-sampler",
+    "typedef-array",
+    "typedef-array",
 ];
 
 fn decls_of(p: &Program) -> Vec<DeclDesc> {
@@ -397,6 +399,16 @@ fn build_with(seed: u64, variant: &str, drops: &str) -> Option<Built> {
         "unbounded" => {
             decls.push(DeclDesc { name: "g_unbounded".into(), kind: "Texture2D".into(), len: "*".into(), ss: false });
             insert_lines(&src, ff, "Texture2D<float4> g_unbounded[];")
+        }
+        "typedef-array" => {
+            // the array dimension (and so the implicit const of an extern global) comes from a typedef
+            decls.push(DeclDesc { name: "g_typedef_tex".into(), kind: "Texture2D".into(), len: "3".into(), ss: false });
+            decls.push(DeclDesc { name: "g_typedef_buf".into(), kind: "RWStructuredBuffer".into(), len: "2".into(), ss: false });
+            insert_lines(
+                &src,
+                ff,
+                "typedef Texture2D<float4> TexArray3[3];\nTexArray3 g_typedef_tex;\ntypedef RWStructuredBuffer<float4> BufArray2[2];\nBufArray2 g_typedef_buf;",
+            )
         }
         "api-define" => {
             defines.push(("ARRAY_LEN".into(), "2".into()));
